@@ -14,6 +14,7 @@ Geoms == [Point |-> {G("Point", Pt(1)), G("Point", Pt(4))},
           Bounds |-> {G("Bounds", << <<2, 1>>, <<3, 6>> >>), G("Bounds", << <<4, 4>>, <<1, 3>> >>)}]          \* proper boxes: min < max on both axes
 Attrs == {[id |-> 0, name |-> 1, val |-> 1], [id |-> -1, name |-> 2, val |-> 2], [id |-> 2147483647, name |-> 3, val |-> 3],
           [id |-> -999999999, name |-> 4, val |-> 4], [id |-> 7, name |-> 2, val |-> 5],
+          [id |-> -2, name |-> 1, val |-> 4], [id |-> -3, name |-> 3, val |-> 5],     \* ids -2 / -3 stand for 9999999999 and 2147483648
           [id |-> 3, name |-> 5, val |-> 1], [id |-> 4, name |-> 6, val |-> 2], [id |-> 5, name |-> 7, val |-> 3]}      \* names 5-7: white space other than blanks at either end
 RecsOf(k) == {[g |-> x, id |-> a.id, name |-> a.name, val |-> a.val] : x \in Geoms[k], a \in Attrs}
 MCRecords == [k \in DOMAIN Geoms |-> RecsOf(k)]
